@@ -78,6 +78,24 @@ impl Set {
             }
         }
     }
+    /// all multisets of four plans from `m` (counter-only kinds: every operation is one atomic step)
+    pub fn quads(&mut self, kinds: &[K], lens: &[usize], m: &[Plan], fins: &[Final], o: &RunOpts) {
+        for &kind in kinds {
+            for &len in lens {
+                for i in 0..m.len() {
+                    for j in i..m.len() {
+                        for k in j..m.len() {
+                            for l in k..m.len() {
+                                for &fin in fins {
+                                    self.add(SysCfg { kind, len, plans: vec![m[i].clone(), m[j].clone(), m[k].clone(), m[l].clone()], fin, fault: Fault::None }, o.clone());
+                                }
+                            }
+                        }
+                    }
+                }
+            }
+        }
+    }
     /// all multisets of three plans from `m`
     pub fn triples(&mut self, kinds: &[K], lens: &[usize], m: &[Plan], fins: &[Final], o: &RunOpts) {
         for &kind in kinds {
@@ -142,6 +160,10 @@ pub fn for_property(prop: &str, tier: Tier) -> Vec<(SysCfg, RunOpts)> {
                 s.pairs(&counter_kinds(), &[4], &m, &m, &d, &complete2());
             }
             s.triples(&main_kinds, if q { &[2, 3] } else { &[2, 3, 4] }, &menu3, &d, &bounded(b3));
+            if !q {
+                // four threads, complete exploration, on the kinds whose operations are single atomic steps
+                s.quads(&counter_kinds(), &[3, 5], &menu(&["DN", "DC2", "DB3", "EF2", "N,DC3", "C2:1,DI"]), &d, &complete2());
+            }
         }
         "C02" => {
             let m = menu(&["DI", "DW", "DC2", "DC3", "DB2", "DB3", "EF1", "EF2", "EF3", "I,DB2", "C3,DI", "C2:1,DC2", "B3x1,DC2", "I,I", "C2", "C3,N", "B2x2:1", "V,W", "S,I,C2", "I,S,W", "B2x2:1f", "B3x2:1f"]);
@@ -163,6 +185,9 @@ pub fn for_property(prop: &str, tier: Tier) -> Vec<(SysCfg, RunOpts)> {
                 s.pairs(&counter_kinds(), &[4, 5], &m, &m, &d, &complete2());
             }
             s.triples(&main_kinds, &[3, 4], &menu(&["N,N", "C2,N", "B2x2", "I", "DN"]), &d, &bounded(b3));
+            if !q {
+                s.quads(&counter_kinds(), &[4, 6], &menu(&["N,N", "C2,N", "B2x2:1f", "I,C3", "DN", "W"]), &d, &complete2());
+            }
         }
         "C05" => {
             let m = cat(&after_end(), &menu(&["DN", "DC3", "DB2", "N,N", "C2"]));
